@@ -10,10 +10,28 @@ def run(ctx):
     if exe is None:
         raise vlib.CheckError("harness build failed:\n" + log[-3000:])
     big = ctx.tier == "thorough"
-    args = ["-seed", ctx.seed, "-main", 6000 if big else 400, "-malformed", 2500 if big else 180,
-            "-nilchange", 400 if big else 60, "-limit", 20000 if big else 1000,
-            "-corpus", os.path.join(vlib.ROOT, "corpus", "c13_limit.tsv")]
-    res = vlib.run_pipeline(ctx, exe, args, mcheck, timeout=1500)
+    corpus = os.path.join(vlib.ROOT, "corpus", "c13_limit.tsv")
+    if not big:
+        res = vlib.run_pipeline(ctx, exe, ["-seed", ctx.seed, "-main", 400, "-malformed", 180, "-nilchange", 60, "-limit", 1000,
+                                           "-corpus", corpus], mcheck, timeout=600)
+    else:
+        # several fresh harness processes (each world keeps real stores and controllers alive; a long single run
+        # only accumulates them), seeds derived from the run's seed
+        res = None
+        all_lines = []
+        for k in range(6):
+            r = vlib.run_pipeline(ctx, exe, ["-seed", "%s%02d" % (ctx.seed, k), "-main", 1000, "-malformed", 420, "-nilchange", 70,
+                                             "-limit", 3500, "-corpus", corpus], mcheck, timeout=900)
+            all_lines.append(open(os.path.join(ctx.work, "lines.tsv")).read())
+            if res is None:
+                res = r
+            else:
+                for key, v in r["stats"].items():
+                    res["stats"][key] = res["stats"].get(key, 0) + v
+                res["mismatches"] += r["mismatches"]
+                res["specviols"] += r["specviols"]
+                res["nlines"] += r["nlines"]
+        open(os.path.join(ctx.work, "lines.tsv"), "w").write("".join(all_lines))
     cross_check_in_coq(ctx, mcheck, 400 if big else 120)
     vlib.judge(ctx, res, "SetReq.v/PathModel.v <-> gnmi Server.Set (up to transactions.Create), path.go, Service.Register")
     vlib.std_coverage(ctx, res,
